@@ -24,6 +24,8 @@ def check(ctx):
     ctx.run(rule_normaliser_frames, "C03.T2")
     ctx.run(S.rule_owner_writes_only, "C03.T3", rr)
     ctx.run(S.rule_every_stale_entry_rebuilt, "C03.T4", rr)
+    from .rewriterules import rule_independent_entries
+    ctx.run(rule_independent_entries, "C03.T4", rr)
     from .prunerules import rule_pruning_evaluated
     ctx.run(rule_pruning_evaluated, "C03.T5", rr)
     ctx.run(S.rule_stale_check_sees_stored_nodes, "C03.T6", rr)
